@@ -211,7 +211,9 @@ class GeoHooks(Hooks):
             if name in ('L_x', 'L_y', 'L_z'):
                 return LSize(name[-1])
             if name == 'stabilizer_index':
-                return _SIndex()
+                si = _SIndex()
+                si.hooks = self
+                return si
             if name in ('qubit_index', 'qubit_coordinates'):
                 return _Everything()
         return NOT_HANDLED
@@ -275,6 +277,9 @@ class GeoHooks(Hooks):
         return NOT_HANDLED
 
     def compare(self, it, op, a, b, node):
+        if isinstance(op, (ast.Is, ast.IsNot)) and isinstance(a, Tagged) and a.tag == 'row' and b is None:
+            self.checked.append(a.args[0])          # `index is not None` after stabilizer_index.get(loc)
+            return isinstance(op, ast.IsNot)
         if isinstance(op, (ast.In, ast.NotIn)) and isinstance(b, (_SIndex, _Everything)):
             if isinstance(b, _SIndex):
                 self.checked.append(a)
@@ -303,7 +308,20 @@ class _Vec:
 
 
 class _SIndex:
-    pass
+    """code.stabilizer_index in the bulk: every face location asked for is there."""
+    hooks = None
+
+    def pqv_getattr(self, name):
+        if name == 'get':
+            me = self
+
+            class _Get:
+                def pqv_call(_s, *a, **k):
+                    # d.get(loc[, default]): the row if the location is on the lattice (always, in the bulk); it is a
+                    # membership test only together with a test of the result against None (see GeoHooks.compare)
+                    return Tagged('row', a[0])
+            return _Get()
+        return TOP
 
 
 class _Everything:
@@ -458,10 +476,10 @@ def _r103_104(ctx: Ctx) -> None:
                     if fres == fc:
                         want.add(tuple(-x for x in d))
             if len(rets) != 1:
-                ctx.ob('R10.3', site, f'{dname}.flip_edge on edge class {e} of {cname}', False,
-                       f'flip_edge has no single bulk path for this edge class: {outs!r}',
-                       key=f'{dname}|{cname}|flip[{e}]')
-                continue
+                # in the bulk model every test on coordinates is decided: several paths mean a condition on a value
+                # the model does not follow - undecided, not a violation
+                raise AnalysisError('R10.3', site, f'{dname}.flip_edge on edge class {e} of {cname}: no single bulk path '
+                                                   f'({len(outs)} outcomes: {outs[:2]!r})')
             toggles = rets[0].value
             got = set()
             bad = None
@@ -541,11 +559,15 @@ class MoveHooks(Hooks):
             return Tagged('loc', id(node))
         if n:
             return TOP
+        if isinstance(func, Ext) and func.name == 'builtins.tuple' and len(args) == 1 and isinstance(args[0], Tagged) \
+                and args[0].tag == 'loc':
+            return args[0]                       # tuple(np.mod(...)): the same location
         return NOT_HANDLED
 
     def iterate(self, it, value, node):
         if value is TOP:
-            return [(TOP, TOP, TOP)] if isinstance(getattr(node, 'target', None), ast.Tuple) else [TOP]
+            tgt = getattr(node, 'target', None)
+            return [tuple(TOP for _ in tgt.elts)] if isinstance(tgt, ast.Tuple) else [TOP]
         return NOT_HANDLED
 
     def store_subscript(self, it, obj, idx, value, node, env):
